@@ -14,12 +14,13 @@ everything else -> body).  Actual values come from the python-pptx API (slide.sh
 slide.placeholders, placeholder_format, left/top/width/height, prs.slides, slide_layout).
 """
 import io
+import os
 
 from hypothesis import strategies as st
 
 from vlib import c13_model as M
 from vlib import corpus, opcmodel
-from vlib.core import HarnessError, Rec, Violation, collect, hyp_search, run_plain, sut
+from vlib.core import REPO, HarnessError, Rec, Violation, collect, hyp_search, run_plain, sut
 
 PROPERTY = "C13"
 LEVEL = "exploration"
@@ -480,6 +481,59 @@ class Run(object):
         ph["path"] = "overridden"
         self.verify_model_slide(slide, m, "after-override")
 
+    def op_fill(self, si, phi):
+        """a picture / table / chart placeholder is filled through its insert_* method: the slide still has one
+        placeholder per layout placeholder, of the same type and idx, in the same order"""
+        if not self.model:
+            self.stats.discarded += 1
+            return
+        k = si % len(self.model)
+        m = self.model[k]
+        slide = self.slides()[self.n0 + k]
+        with sut("C13:api:placeholders"):
+            # (a placeholder to which neither layout nor master gives a position and a non-empty size has no frame to fill:
+            # not part of this op's domain, see DESIGN 8.4)
+            fillable = [p for p in slide.placeholders
+                        if any(hasattr(p, a) for a in ("insert_picture", "insert_table", "insert_chart"))
+                        and None not in _geom(p) and min(_geom(p)[2:]) > 0]
+            before = [(t.shape_id, _token(t)) for t in slide.shapes if t.is_placeholder]
+        if not fillable:
+            self.stats.discarded += 1
+            return
+        tgt = fillable[phi % len(fillable)]
+        sid = tgt.shape_id
+        with sut("C13:edit:fill"):
+            if hasattr(tgt, "insert_picture"):
+                tgt.insert_picture(os.path.join(REPO, "tests", "test_files", "python-icon.jpeg"))
+                how = "picture"
+            elif hasattr(tgt, "insert_table"):
+                tgt.insert_table(2, 2)
+                how = "table"
+            else:
+                from pptx.chart.data import CategoryChartData
+                from pptx.enum.chart import XL_CHART_TYPE
+                cd = CategoryChartData()
+                cd.categories = ["a", "b"]
+                cd.add_series("s", (1, 2))
+                tgt.insert_chart(XL_CHART_TYPE.COLUMN_CLUSTERED, cd)
+                how = "chart"
+        self.stats.classes.append("edit:fill-%s-placeholder" % how)
+        with sut("C13:api:shapes"):
+            after = [(t.shape_id, _token(t)) for t in slide.shapes if t.is_placeholder]
+            filled = [t for t in slide.shapes if t.shape_id == sid]
+        if after != before:
+            raise Violation("C13:persist:after-fill:order",
+                            "placeholders (shape id, type) in document order were %r before insert_%s on id=%s, %r after"
+                            % (before, how, sid, after))
+        for ph in m["phs"]:
+            if ph["id"] == sid and how != "picture" and filled:
+                # a table / chart frame is given a position and size of its own
+                ph["acc"], ph["path"] = {_geom(filled[0])}, "overridden"
+        # the p:pic that replaces a picture placeholder starts without a:xfrm: where the placeholder had been positioned
+        # by the caller, what the picture inherits from then on is not modelled
+        m["phs"] = [ph for ph in m["phs"] if not (ph["id"] == sid and how == "picture" and ph["path"] == "overridden")]
+        self.verify_model_slide(slide, m, "after-fill")
+
     def op_edit_layout(self, si, phi, level, x, y, cx, cy):
         """the layout (or its master) is edited through the public setters after slides were made from it: slide
         placeholders that were never positioned themselves follow ("... until overridden")"""
@@ -692,6 +746,8 @@ class Run(object):
             self.op_override(*op[1:7])
         elif name == "edit_layout":
             self.op_edit_layout(*op[1:8])
+        elif name == "fill":
+            self.op_fill(op[1], op[2])
         elif name == "text":
             self.op_text(op[1], op[2], op[3])
         elif name == "slidename":
@@ -819,6 +875,7 @@ def _ops(layout_indices, max_ops):
         st.tuples(st.just("override"), small, small, _COORD, _COORD, _EXT, _EXT).map(list),
         st.tuples(st.just("edit_layout"), small, small, st.sampled_from([0, 0, 1]), _COORD, _COORD, _EXT, _EXT).map(list),
         st.tuples(st.just("text"), small, small, _TEXT).map(list),
+        st.tuples(st.just("fill"), small, small).map(list),
         st.tuples(st.just("slidename"), small, _TEXT).map(list),
     )
     return st.lists(op, max_size=max_ops)
@@ -882,7 +939,7 @@ def directed_cases():
     ops1 = [["add", 1], ["rename", 0, 0, 0, 0], ["clone_into", 0, 0], ["rename", 0, 1, 1, 0],
             ["clone_into", 0, 1], ["notes", 0], ["reopen"], ["add", 1], ["override", 1, 0, 0, 0, 5, 6],
             ["shape", 0, "table"], ["text", 0, 0, "t"], ["slidename", 1, "s"], ["notes", 1],
-            ["reopen"], ["add", 0]]
+            ["fill", 0, 0], ["fill", 0, 1], ["fill", 0, 2], ["fill", 1, 0], ["reopen"], ["add", 0]]
     return [
         ["gen", {"layouts": [[2, mixed]], "master": None, "notes": notes_all, "idstep": 1}, ops1],
         ["gen", {"layouts": [[2, mixed]], "master": [_ph("body", 1, full), _ph("body", 2, zero)],
